@@ -59,6 +59,25 @@ theorem Input.ofTables_mono (len : Nat) (skips : Array Nat) (ms : List (Nat × N
     · omega
     · exact Nat.le_refl _
 
+/-- Layout skipping is idempotent on the positions of the text (beyond it nothing is skipped). -/
+def skipIdemB (inp : Input) : Bool :=
+  (List.range (inp.len + 1)).all (fun p => inp.skip (inp.skip p) == inp.skip p)
+
+theorem Input.ofTables_idem (len : Nat) (skips : Array Nat) (ms : List (Nat × Nat × Nat))
+    (h : skipIdemB (Input.ofTables len skips ms) = true) :
+    ∀ p, (Input.ofTables len skips ms).skip ((Input.ofTables len skips ms).skip p) =
+      (Input.ofTables len skips ms).skip p := by
+  intro p
+  by_cases hp : p ≤ len
+  · simp only [skipIdemB, List.all_eq_true, List.mem_range, beq_iff_eq] at h
+    exact h p (by show p < len + 1; omega)
+  · have hfix : (Input.ofTables len skips ms).skip p = p := by
+      simp only [Input.ofTables]
+      cases skips[p]? with
+      | none => rfl
+      | some q => simp only [hp, if_false]
+    rw [hfix, hfix]
+
 structure StateData where
   sym : Sym
   cells : List (Nat × List Action)
